@@ -422,7 +422,7 @@ PROPS["C18"] = dict(
 
 PROPS["C20"] = dict(
     modules=["Morlock.Props.C20", "Morlock.Props.C06", "Morlock.Props.C01"],
-    streams=["c20"],
+    streams=["c20", "flt"],
     level_text="Lean theorems for the parts that are rules, not heuristics: the colour mirror (board flipped, colours swapped) is an involution and commutes with the attack relation, check, "
                "pseudo-legal and legal move generation, making a move, and perft on every position with at most one king per side (attackedBy_mirror, inCheck_mirror, pseudoMoves_mirror, "
                "apply_mirror, isLegal_mirror, legalMoves_mirror, perft_mirror; the one-king hypothesis is shown necessary), lifted to the bitboard generator through C01 "
@@ -453,10 +453,11 @@ PROPS["C16"]["extra"] = [race_step(dict(
               "uci morlock 0 ; slow 50 ;; > position startpos ;; > go infinite ;; sleep 200 ;; > stop ;; wait-bestmove 20000 ;; > position startpos moves e2e4 ;; > go depth 3 ;; wait-bestmove 20000 ;; > quit ;; wait-closed",
               "uci sargon 0 ; slow 50 ;; > position startpos moves e2e4 e7e5 ;; > go depth 2 ;; sleep 30 ;; > go depth 1 ;; wait-bestmove 30000 ;; close ;; wait-closed"]))]
 PROPS["C18"]["extra"] = [race_step(dict(
-    quick=[],
+    quick=["supersede sargon 40 2 e2e4 e7e5"],
     thorough=["isolate sargon 150 1 rnbqkbnr/pppppppp/8/8/8/8/PPPPPPPP/RNBQKBNR w KQkq - 0 1 ; m:e2e4 m:e7e5 ; g1f3",
               "isolate turochamp 200 0 r3k2r/p1ppqpb1/bn2pnp1/3PN3/1p2P3/2N2Q1p/PPPBBPPP/R3K2R w KQkq - 0 1 ;  ; e1g1",
-              "det sargon 2 rnbqkbnr/pppppppp/8/8/8/8/PPPPPPPP/RNBQKBNR w KQkq - 0 1 ; m:d2d4 m:d7d5"]))]
+              "det sargon 2 rnbqkbnr/pppppppp/8/8/8/8/PPPPPPPP/RNBQKBNR w KQkq - 0 1 ; m:d2d4 m:d7d5",
+              "supersede sargon 300 2 e2e4 e7e5", "supersede turochamp 100 1 e2e4 e7e5", "supersede bernstein 100 2 d2d4 d7d5"]))]
 CUSTOM_REPLAY["C17"] = _replay_race
 CUSTOM_REPLAY["C16"] = _replay_race
 CUSTOM_REPLAY["C18"] = _replay_race
